@@ -209,12 +209,12 @@ Theorem C09_minor_direction (aa bb cc am bm cm w sxj syj szj dt1 : R) (vf rf : R
   gz = norm3 gx gy gz * sin (bet_of gx gy gz).
 Proof. exact (minor_direction aa bb cc am bm cm w sxj syj szj dt1 vf rf). Qed.
 
-(* [ideal, generated code] Pluto.geocentric_position for an epoch whose year is within 1885..2099:
+(* [ideal, generated code] Pluto.geocentric_position for an epoch whose fractional year is in [1885, 2100):
    Pluto at the epoch, light time tau = 0.0057755183*|Pluto + Sun|, Pluto again at epoch - tau =: j1
    (Epoch.__sub__ abstracted), ecliptic J2000 -> equatorial with sin/cos eps = 0.397777156/0.917482062,
    ra = atan2(eta, xi) in [0,360), dec = asin(zeta/delta) of Pluto(j1) + Sun(j) *)
 Theorem C09_pluto_geo (yv j j1 l1 b1 r1 l2 b2 r2 sxj syj szj : R) :
-  Epoch_year Rops (C09_geo.ep j) = VFloat yv -> 1885 <= yv <= 2099 ->
+  Epoch_year Rops (C09_geo.ep j) = VFloat yv -> 1885 <= yv < 2100 ->
   Pluto_geometric_heliocentric_position Rops (C09_geo.ep j) = VTuple [ang l1; ang b1; VFloat r1] ->
   Sun_rectangular_coordinates_j2000 Rops (C09_geo.ep j) = VTuple [VFloat sxj; VFloat syj; VFloat szj] ->
   Epoch___sub__ Rops (C09_geo.ep j) (VFloat (tauP l1 b1 r1 sxj syj szj)) = C09_geo.ep j1 ->
@@ -225,9 +225,9 @@ Theorem C09_pluto_geo (yv j j1 l1 b1 r1 l2 b2 r2 sxj syj szj : R) :
           ang (red360 (asin (zeta2 l2 b2 r2 szj / delta2 l2 b2 r2 sxj syj szj) * (180 / PI)))].
 Proof. exact (pluto_geo yv j j1 l1 b1 r1 l2 b2 r2 sxj syj szj). Qed.
 
-(* [ideal, generated code] outside 1885..2099 Pluto.geocentric_position raises ValueError *)
+(* [ideal, generated code] outside [1885, 2100) Pluto.geocentric_position raises ValueError *)
 Theorem C09_pluto_refuses (yv j : R) :
-  Epoch_year Rops (C09_geo.ep j) = VFloat yv -> yv < 1885 \/ 2099 < yv ->
+  Epoch_year Rops (C09_geo.ep j) = VFloat yv -> yv < 1885 \/ 2100 <= yv ->
   Pluto_geocentric_position Rops (C09_geo.ep j) = VErr ValueError.
 Proof. exact (pluto_geo_refuses yv j). Qed.
 
